@@ -369,7 +369,7 @@ class Interp:
             return {("addr", smash(b[1]))}
         if isinstance(a, tuple) and a[0] == "mem" and op == "+" and "many" not in a:
             # pointer into a heap block: element k (exact when loops are unrolled, summarised otherwise)
-            if not self.widen and is_int(b) and 0 <= b <= 64:
+            if not self.widen and is_int(b) and b >= 0:
                 return {("addr", ("i", ("heap", a), b))}
             if is_int(b) or b in ("POS",):
                 return {("addr", ("i", ("heap", a), "*"))}
